@@ -35,14 +35,90 @@ PURE_CALLS = {'math.sqrt', 'math.log', 'math.exp', 'math.pow', 'math.floor', 'ma
               'print', 'traceback.print_exc', 'logger.log', 'logger.debug', 'logger.info', 'logger.warning', 'logger.error', 'format'}
 
 
+PURE_STR_METHODS = {'find', 'rfind', 'index', 'split', 'rsplit', 'partition', 'rpartition', 'startswith', 'endswith', 'strip', 'lstrip', 'rstrip',
+                    'lower', 'upper', 'count', 'isdigit'}
+
+
 def load_baseline():
     with open(BASELINE_PATH) as fh:
         return json.load(fh)
 
 
+def attr_profiles(modules):
+    """attribute / method name -> {where: count}: every `x.<name>` occurrence and every `def <name>` in a class, keyed by the
+    enclosing 'module:Class.function' (uses) or 'module:Class#def' (definitions).  A pure rename keeps the profile."""
+    prof = {}
+
+    def add(name, where):
+        d = prof.setdefault(name, {})
+        d[where] = d.get(where, 0) + 1
+    for mname, tree in sorted(modules.items()):
+        for n in tree.body:
+            if isinstance(n, (ast.FunctionDef, ast.AsyncFunctionDef)):
+                for x in ast.walk(n):
+                    if isinstance(x, ast.Attribute):
+                        add(x.attr, f'{mname}:{n.name}')
+            elif isinstance(n, ast.ClassDef):
+                for m in n.body:
+                    if isinstance(m, (ast.FunctionDef, ast.AsyncFunctionDef)):
+                        add(m.name, f'{mname}:{n.name}#def')
+                        for x in ast.walk(m):
+                            if isinstance(x, ast.Attribute):
+                                add(x.attr, f'{mname}:{n.name}.{m.name}')
+                    else:
+                        for x in ast.walk(m):
+                            if isinstance(x, ast.Attribute):
+                                add(x.attr, f'{mname}:{n.name}#body')
+            else:
+                for x in ast.walk(n):
+                    if isinstance(x, ast.Attribute):
+                        add(x.attr, f'{mname}:#module')
+    return prof
+
+
+def undo_renames(trees, base, log):
+    """N0: a private name of the baseline that vanished while a new name with exactly the same usage profile appeared is a rename;
+    the new name is mapped back so that the rules see the name they know.  Methods first (their names occur in the profiles of
+    fields), then fields."""
+    bprof = base.get('__attrs__')
+    if not bprof:
+        return
+    for _round in range(3):
+        cur = attr_profiles(trees)
+        fresh = [n for n in cur if n not in bprof and n.startswith('_') and not (n.startswith('__') and n.endswith('__'))]
+        if not fresh:
+            return
+        mapping = {}
+        for v, bp in bprof.items():
+            if not v.startswith('_') or (v.startswith('__') and v.endswith('__')):
+                continue
+            cp = cur.get(v, {})
+            if cp == bp:
+                continue
+            # the part of the baseline profile that is missing now (a rename inside one class keeps the other classes' uses)
+            if any(cp.get(k, 0) > c for k, c in bp.items()) or any(k not in bp for k in cp):
+                continue
+            missing = {k: c - cp.get(k, 0) for k, c in bp.items() if c - cp.get(k, 0) > 0}
+            if not missing:
+                continue
+            cands = [f for f in fresh if cur[f] == missing and f not in mapping]
+            if len(cands) == 1:
+                mapping[cands[0]] = v
+        if not mapping:
+            return
+        for tree in trees.values():
+            for x in ast.walk(tree):
+                if isinstance(x, ast.Attribute) and x.attr in mapping:
+                    x.attr = mapping[x.attr]
+                elif isinstance(x, (ast.FunctionDef, ast.AsyncFunctionDef)) and x.name in mapping:
+                    x.name = mapping[x.name]
+        for new, old in sorted(mapping.items()):
+            log.append(f'N0 rename {old} -> {new} undone (identical usage profile at {sum(bprof[old].values())} site(s))')
+
+
 def make_baseline(modules):
     """modules: name -> ast.Module ; returns the name table"""
-    out = {}
+    out = {'__attrs__': attr_profiles(modules)}
     for mname, tree in sorted(modules.items()):
         ent = {'consts': [], 'funcs': {}, 'classes': {}}
         for n in tree.body:
@@ -168,7 +244,31 @@ def _single_name_assign(st):
     return None, None
 
 
+def _split_tuple_constants(body):
+    """`A, B = 0, 1` (all pure constants) -> `A = 0; B = 1`"""
+    out = []
+    for st in body:
+        if isinstance(st, ast.Assign) and len(st.targets) == 1 and isinstance(st.targets[0], ast.Tuple) and isinstance(st.value, ast.Call) \
+                and _txt(st.value.func) == 'range' and len(st.value.args) == 1 and isinstance(st.value.args[0], ast.Constant) \
+                and st.value.args[0].value == len(st.targets[0].elts) and all(isinstance(t, ast.Name) for t in st.targets[0].elts):
+            for i, t in enumerate(st.targets[0].elts):
+                out.append(ast.copy_location(ast.Assign(targets=[ast.Name(id=t.id, ctx=ast.Store())], value=ast.Constant(value=i), lineno=st.lineno), st))
+        elif isinstance(st, ast.Assign) and len(st.targets) == 1 and isinstance(st.targets[0], ast.Tuple) and isinstance(st.value, ast.Tuple) \
+                and len(st.targets[0].elts) == len(st.value.elts) and all(isinstance(t, ast.Name) for t in st.targets[0].elts) \
+                and all(_pure_const_expr(v) for v in st.value.elts):
+            for t, v in zip(st.targets[0].elts, st.value.elts):
+                out.append(ast.copy_location(ast.Assign(targets=[ast.Name(id=t.id, ctx=ast.Store())], value=v, lineno=st.lineno), st))
+        else:
+            out.append(st)
+    return out
+
+
 def fold_constants(trees, base, log):
+    for tree in trees.values():
+        tree.body = _split_tuple_constants(tree.body)
+        for n in tree.body:
+            if isinstance(n, ast.ClassDef):
+                n.body = _split_tuple_constants(n.body)
     # names stored through attributes anywhere (self.X = / Cls.X = / del) -> never folded as class constants
     attr_stores = set()
     name_stores = {}                         # module -> {name: count of stores at any depth}
@@ -336,12 +436,13 @@ def _replace_tail(stmts, k, at_end):
 class _Helper:
     def __init__(self, name, fn, cls, mname, static):
         self.name, self.fn, self.cls, self.mname, self.static = name, fn, cls, mname, static
+        self.classmethod = static == 'cls'
         a = fn.args
         self.params = [x.arg for x in a.args]
         self.defaults = {}
         for p, d in zip(reversed(self.params), reversed(a.defaults)):
             self.defaults[p] = d
-        if cls is not None and not static:
+        if cls is not None and (not static or static == 'cls'):
             self.params = self.params[1:]
         body = _body(fn)
         self.expr = body[0].value if len(body) == 1 and isinstance(body[0], ast.Return) and body[0].value is not None else None
@@ -355,6 +456,8 @@ def _eligible_helper(fn, cls):
         return None
     decos = [_txt(d) for d in fn.decorator_list]
     static = decos == ['staticmethod']
+    if decos == ['classmethod'] and a.args and a.args[0].arg == 'cls':
+        return 'cls'
     if decos and not static:
         return None
     if isinstance(fn, ast.AsyncFunctionDef):
@@ -416,6 +519,16 @@ def _first_evaluated_call(st):
     """the call evaluated first by a simple statement (following the left-most / inner-most evaluation order), or None"""
     if isinstance(st, (ast.Expr, ast.Return)):
         e = st.value
+    elif isinstance(st, ast.If):
+        e = st.test
+        if isinstance(e, ast.UnaryOp) and isinstance(e.op, ast.Not):
+            e = e.operand
+        if isinstance(e, ast.BoolOp):
+            e = e.values[0]                      # the first operand of and / or is evaluated first
+            if isinstance(e, ast.UnaryOp) and isinstance(e.op, ast.Not):
+                e = e.operand
+    elif isinstance(st, ast.For):
+        e = st.iter
     elif isinstance(st, (ast.Assign, ast.AnnAssign, ast.AugAssign)):
         if isinstance(st, ast.AugAssign) and not isinstance(st.target, ast.Name):
             return None
@@ -443,14 +556,77 @@ def _first_evaluated_call(st):
         if isinstance(e, (ast.Attribute, ast.Subscript)):
             e = e.value
         elif isinstance(e, ast.BinOp):
-            e = e.left
+            e = e.left if not _atomic(e.left) else e.right          # an atomic left operand has no effect of its own
         elif isinstance(e, ast.Compare):
-            e = e.left
+            e = e.left if not _atomic(e.left) else e.comparators[0]
         elif isinstance(e, ast.UnaryOp):
             e = e.operand
         else:
             return None
     return None
+
+
+def _const_truth(e):
+    """True / False / None for a test expression that is a literal (possibly negated)"""
+    if isinstance(e, ast.Constant) and (e.value is None or isinstance(e.value, (bool, int, float, str))):
+        return bool(e.value)
+    if isinstance(e, ast.UnaryOp) and isinstance(e.op, ast.Not):
+        t = _const_truth(e.operand)
+        return None if t is None else (not t)
+    if isinstance(e, (ast.List, ast.Tuple, ast.Dict)) and not (e.elts if not isinstance(e, ast.Dict) else e.keys):
+        return False
+    return None
+
+
+def _simplify_block(stmts):
+    """fold `if <literal>`; `if not c: pass else: X` -> `if c: X`; drop `pass` from non-empty blocks; cut dead code after return/raise"""
+    out = []
+    for st in stmts:
+        if isinstance(st, ast.If):
+            st.body = _simplify_block(st.body)
+            st.orelse = _simplify_block(st.orelse)
+            t = _const_truth(st.test)
+            if t is True:
+                out.extend(st.body)
+            elif t is False:
+                out.extend(st.orelse)
+            else:
+                body_empty = all(isinstance(x, ast.Pass) for x in st.body)
+                if body_empty and st.orelse and isinstance(st.test, ast.UnaryOp) and isinstance(st.test.op, ast.Not):
+                    out.append(ast.copy_location(ast.If(test=st.test.operand, body=st.orelse, orelse=[]), st))
+                elif body_empty and not st.orelse:
+                    # the test may have side effects only if it contains a call; keep it then
+                    if any(isinstance(x, ast.Call) for x in ast.walk(st.test)):
+                        st.body = [ast.copy_location(ast.Pass(), st)]
+                        out.append(st)
+                else:
+                    if not st.body:
+                        st.body = [ast.copy_location(ast.Pass(), st)]
+                    out.append(st)
+        elif isinstance(st, ast.For) and _const_truth(st.iter) is False and not st.orelse:
+            continue                                    # a loop over an empty literal
+        elif isinstance(st, (ast.For, ast.While, ast.With, ast.Try)):
+            for field in ('body', 'orelse', 'finalbody'):
+                v = getattr(st, field, None)
+                if isinstance(v, list) and v:
+                    setattr(st, field, _simplify_block(v) or ([ast.copy_location(ast.Pass(), st)] if field == 'body' else []))
+            if isinstance(st, ast.Try):
+                for hd in st.handlers:
+                    hd.body = _simplify_block(hd.body) or [ast.copy_location(ast.Pass(), st)]
+            out.append(st)
+        elif isinstance(st, ast.Pass):
+            continue
+        elif isinstance(st, ast.Assign) and len(st.targets) == 1 and isinstance(st.targets[0], ast.Tuple) and isinstance(st.value, ast.Tuple) \
+                and len(st.targets[0].elts) == len(st.value.elts) and all(isinstance(t, ast.Name) for t in st.targets[0].elts) \
+                and not ({t.id for t in st.targets[0].elts} & {x.id for v in st.value.elts for x in ast.walk(v) if isinstance(x, ast.Name)}):
+            # a, b = (x, y) with right-hand sides that do not read the targets: same order of evaluation
+            for t, v in zip(st.targets[0].elts, st.value.elts):
+                out.append(ast.copy_location(ast.Assign(targets=[ast.Name(id=t.id, ctx=ast.Store())], value=v, lineno=st.lineno), st))
+        else:
+            out.append(st)
+        if out and isinstance(out[-1], (ast.Return, ast.Raise)):
+            break
+    return out
 
 
 class _Inliner:
@@ -477,6 +653,8 @@ class _Inliner:
                 return h                      # x.helper(..) on another object: the helper's name is unique in the program
             if h.static and (bt == h.cls or (bt in ('cls', 'type(self)') and cur_cls in self.subclasses.get(h.cls, ()))):
                 return h
+            if h.classmethod and bt == 'self' and cur_cls in self.subclasses.get(h.cls, ()):
+                return h
             return None
         if isinstance(f, ast.Name) and f.id in self.helpers and self.helpers[f.id].cls is None:
             return self.helpers[f.id]
@@ -498,6 +676,11 @@ class _Inliner:
                 if h.cls is not None and not h.static and isinstance(node.func, ast.Attribute) and _txt(node.func.value) != 'self':
                     m = dict(m)
                     m['self'] = node.func.value
+                if h.classmethod and isinstance(node.func, ast.Attribute) and _txt(node.func.value) != 'cls':
+                    m = dict(m)
+                    bt = _txt(node.func.value)
+                    m['cls'] = ast.Call(func=ast.Name(id='type', ctx=ast.Load()), args=[ast.Name(id='self', ctx=ast.Load())], keywords=[]) if bt == 'self' \
+                        else node.func.value
                 uses = {}
                 for x in ast.walk(h.expr):
                     if isinstance(x, ast.Name) and x.id in m:
@@ -530,28 +713,19 @@ class _Inliner:
             call, form = st.value, 'return'
         if call is not None and (self._match(call, cur_cls) is None):
             call = None
+        cont = None
         if call is None:
-            # a helper call nested in the statement that is evaluated before anything else: hoist it into a temporary
+            # a helper call nested in the statement that is evaluated before anything else: the rest of the statement becomes the
+            # continuation of every `return` of the helper (the value is substituted where the call stood)
             fc = _first_evaluated_call(st)
-            if fc is not None and fc is not getattr(st, 'value', None):
-                h0 = self._match(fc, cur_cls)
-                if h0 is not None and h0.fn is not fn and h0.expr is None and all(_atomic(a) or _pure_read(a) for a in list(fc.args) + [k.value for k in fc.keywords]):
-                    self.counter += 1
-                    tmp = f'_hoisted{self.counter}'
-                    asg = ast.copy_location(ast.Assign(targets=[ast.Name(id=tmp, ctx=ast.Store())], value=copy.deepcopy(fc), lineno=st.lineno), st)
-                    ast.fix_missing_locations(asg)
-                    me_fc = fc
-
-                    class R(ast.NodeTransformer):
-                        def visit_Call(self, node):
-                            if node is me_fc:
-                                return ast.copy_location(ast.Name(id=tmp, ctx=ast.Load()), node)
-                            return self.generic_visit(node)
-                    R().visit(st)
-                    first = self._expand(asg, fn, cur_cls)
-                    if first is not None:
-                        return first + [st]
-            return None
+            if fc is None or fc is getattr(st, 'value', None):
+                return None
+            h0 = self._match(fc, cur_cls)
+            if h0 is None or h0.fn is fn or h0.expr is not None:
+                return None
+            if not all(_atomic(a) or _pure_read(a) for a in list(fc.args) + [k.value for k in fc.keywords]):
+                return None
+            call, form, cont = fc, 'cont', st
         h = self._match(call, cur_cls)
         if h is None or h.fn is fn:
             return None
@@ -566,6 +740,12 @@ class _Inliner:
         rename = {loc: (loc + tag if loc in taken else loc) for loc in h.locals}      # keep the helper's names unless they clash
         if h.cls is not None and not h.static and isinstance(call.func, ast.Attribute) and _txt(call.func.value) != 'self':
             mapping['self'] = call.func.value
+        if h.classmethod and isinstance(call.func, ast.Attribute):
+            bt = _txt(call.func.value)
+            if bt == 'self':
+                mapping['cls'] = ast.Call(func=ast.Name(id='type', ctx=ast.Load()), args=[ast.Name(id='self', ctx=ast.Load())], keywords=[])
+            elif bt != 'cls':
+                mapping['cls'] = call.func.value
         nonatomic = [p for p in h.params if not _atomic(m[p])]
         hbody = _body(h.fn)
         for p in h.params:
@@ -577,7 +757,17 @@ class _Inliner:
             else:
                 rename[p] = p + tag if p in taken else p
                 pre.append(ast.copy_location(ast.Assign(targets=[ast.Name(id=rename[p], ctx=ast.Store())], value=copy.deepcopy(a), lineno=st.lineno), st))
-        body = copy.deepcopy(_body(h.fn))
+        # `x = h(..)` where the helper returns one of its own locals on every path: that local *is* x
+        unified = False
+        if form == 'assign' and isinstance(target, ast.Name):
+            rets = [r for r in _walk_shallow(h.fn) if isinstance(r, ast.Return)]
+            names = {r.value.id for r in rets if isinstance(r.value, ast.Name)}
+            if rets and len(names) == 1 and all(isinstance(r.value, ast.Name) for r in rets):
+                r0 = next(iter(names))
+                if r0 in h.locals and r0 not in h.params and _terminates(hbody) and (target.id == r0 or target.id not in h.locals):
+                    rename[r0] = target.id
+                    unified = True
+        body = copy.deepcopy(hbody)
         sub = _Subst(mapping, rename)
         body = [sub.visit(s) for s in body]
         try:
@@ -593,20 +783,44 @@ class _Inliner:
                             return []
                         return [ast.copy_location(ast.Expr(value=v), node)]
                     new = _replace_tail(body, k, lambda: [])
-                else:
+                elif form == 'assign':
                     def k(v, node, target=target):
+                        if unified and isinstance(v, ast.Name) and v.id == target.id:
+                            return []
                         return [ast.copy_location(ast.Assign(targets=[copy.deepcopy(target)], value=v if v is not None else ast.Constant(value=None),
                                                              lineno=node.lineno), node)]
                     new = _replace_tail(body, k, lambda: [ast.copy_location(ast.Assign(targets=[copy.deepcopy(target)], value=ast.Constant(value=None),
                                                                                       lineno=st.lineno), st)])
+                else:
+                    hole = call
+
+                    def fill(v):
+                        class R(ast.NodeTransformer):
+                            def visit_Call(self, node):
+                                if node is hole:
+                                    return ast.copy_location(copy.deepcopy(v) if v is not None else ast.Constant(value=None), node)
+                                return self.generic_visit(node)
+                        # deepcopy loses identity of `hole`: mark it first
+                        hole._pdsa_hole = True
+                        c2 = copy.deepcopy(cont)
+                        del hole._pdsa_hole
+
+                        class R2(ast.NodeTransformer):
+                            def visit_Call(self, node):
+                                if getattr(node, '_pdsa_hole', False):
+                                    return ast.copy_location(copy.deepcopy(v) if v is not None else ast.Constant(value=None), node)
+                                return self.generic_visit(node)
+                        c2 = R2().visit(c2)
+                        return _simplify_block([c2])
+                    new = _replace_tail(body, lambda v, node: fill(v), lambda: fill(None))
         except _NotInlinable:
             self.failed.add(h.name)
             return None
-        new = pre + new
+        new = _simplify_block(pre + new)
         if not new:
             new = [ast.copy_location(ast.Pass(), st)]
-        for s in new:
-            ast.fix_missing_locations(s)
+        for s_ in new:
+            ast.fix_missing_locations(s_)
         self.inlined[h.name] = self.inlined.get(h.name, 0) + 1
         return new
 
@@ -682,6 +896,43 @@ def inline_helpers(trees, base, log):
         if static is None:
             continue
         helpers[name] = _Helper(name, fn, cls, mname, static)
+    # new read-only properties with a single `return <expr>`: `self.<name>` -> the expression
+    for name, ds in defs.items():
+        if len(ds) != 1:
+            continue
+        mname, cls, fn = ds[0]
+        b = base.get(mname)
+        if b is None or cls is None or (cls in b['classes'] and name in b['classes'][cls]['methods']):
+            continue
+        if [_txt(d) for d in fn.decorator_list] != ['property']:
+            continue
+        body = _body(fn)
+        if len(body) != 1 or not isinstance(body[0], ast.Return) or body[0].value is None:
+            continue
+        # a setter for the same name would be a second definition (len(ds) != 1), so this is read-only
+        expr = body[0].value
+        if any(isinstance(x, (ast.Yield, ast.Await, ast.Lambda)) for x in ast.walk(expr)):
+            continue
+        count = 0
+        for tmod, tree in trees.items():
+            for n in tree.body:
+                if isinstance(n, ast.ClassDef) and n.name in subclasses.get(cls, ()):
+                    for m in n.body:
+                        if isinstance(m, (ast.FunctionDef, ast.AsyncFunctionDef)) and m is not fn:
+                            rep = _ReplaceLoads(lambda node, name=name, expr=expr: expr if isinstance(node, ast.Attribute) and node.attr == name
+                                                and _txt(node.value) == 'self' else None)
+                            rep.visit(m)
+                            count += rep.count
+        if count:
+            refs = sum(1 for tree in trees.values() for x in ast.walk(tree) if isinstance(x, ast.Attribute) and x.attr == name)
+            if refs == 0:
+                for tree in trees.values():
+                    for n in tree.body:
+                        if isinstance(n, ast.ClassDef) and fn in n.body:
+                            n.body.remove(fn)
+                            if not n.body:
+                                n.body.append(ast.Pass())
+            log.append(f'N2 {mname}: property {cls}.{name} = {_txt(expr)} inlined at {count} read(s)' + ('; definition dropped' if refs == 0 else ''))
     if not helpers:
         return
     inl = _Inliner(helpers, None, subclasses, log)
@@ -741,6 +992,11 @@ def _pure_read(e, allow_attr=True):
         return _pure_read(e.left, allow_attr) and _pure_read(e.right, allow_attr)
     if isinstance(e, ast.Tuple):
         return all(_pure_read(x, allow_attr) for x in e.elts)
+    if isinstance(e, ast.Slice):
+        return all(x is None or _pure_read(x, allow_attr) for x in (e.lower, e.upper, e.step))
+    if isinstance(e, ast.Call) and isinstance(e.func, ast.Attribute) and isinstance(e.func.value, ast.Name) and e.func.value.id not in ('self', 'cls') \
+            and e.func.attr in PURE_STR_METHODS and not e.keywords:
+        return all(_pure_read(a, allow_attr) for a in e.args)        # str / tuple query methods on a plain name
     return False
 
 
@@ -986,6 +1242,9 @@ def propagate_locals(trees, base, log):
                                 f = _txt(x.func)
                                 if f in PURE_CALLS:
                                     continue
+                                if isinstance(x.func, ast.Attribute) and isinstance(x.func.value, ast.Name) and x.func.value.id not in ('self', 'cls') \
+                                        and x.func.attr in PURE_STR_METHODS:
+                                    continue
                                 if isinstance(s, ast.Raise) and isinstance(x.func, ast.Name) and (f.endswith('Error') or f.endswith('Exception')):
                                     continue              # constructing the exception that is being raised
                                 # a method call on the alias itself (subscribers.append) is the aliased operation
@@ -1009,14 +1268,22 @@ def propagate_locals(trees, base, log):
         for n in tree.body:
             if isinstance(n, (ast.FunctionDef, ast.AsyncFunctionDef)) and n.name in b['funcs']:
                 ifexp_to_if(n)
-                do_fn(n, b['funcs'][n.name], f'{mname}.{n.name}')
+                for _i in range(3):
+                    before = len(log)
+                    do_fn(n, b['funcs'][n.name], f'{mname}.{n.name}')
+                    if len(log) == before:
+                        break
                 sink_returns(n, set(b['funcs'][n.name]))
             elif isinstance(n, ast.ClassDef) and n.name in b['classes']:
                 for m in n.body:
                     if isinstance(m, (ast.FunctionDef, ast.AsyncFunctionDef)) and m.name in b['classes'][n.name]['methods']:
                         known = b['classes'][n.name]['methods'][m.name]
                         ifexp_to_if(m)
-                        do_fn(m, known, f'{n.name}.{m.name}')
+                        for _i in range(3):
+                            before = len(log)
+                            do_fn(m, known, f'{n.name}.{m.name}')
+                            if len(log) == before:
+                                break
                         sink_returns(m, set(known))
 
 
@@ -1128,11 +1395,78 @@ def sink_returns(fn, known_locals):
     ast.fix_missing_locations(fn)
 
 
+# =================================================================================================== N5 match statements
+def _match_test(subject, pat):
+    """test expression equivalent to `case pat` for literal / singleton / class-without-arguments / or-patterns; None = unsupported;
+    True = irrefutable"""
+    if isinstance(pat, ast.MatchValue):
+        return ast.Compare(left=copy.deepcopy(subject), ops=[ast.Eq()], comparators=[pat.value])
+    if isinstance(pat, ast.MatchSingleton):
+        return ast.Compare(left=copy.deepcopy(subject), ops=[ast.Is()], comparators=[ast.Constant(value=pat.value)])
+    if isinstance(pat, ast.MatchAs) and pat.pattern is None and pat.name is None:
+        return True
+    if isinstance(pat, ast.MatchClass) and not pat.patterns and not pat.kwd_patterns:
+        return ast.Call(func=ast.Name(id='isinstance', ctx=ast.Load()), args=[copy.deepcopy(subject), pat.cls], keywords=[])
+    if isinstance(pat, ast.MatchOr):
+        parts = [_match_test(subject, p) for p in pat.patterns]
+        if any(p is None or p is True for p in parts):
+            return None
+        return ast.BoolOp(op=ast.Or(), values=parts)
+    return None
+
+
+def match_to_if(trees, log):
+    if not hasattr(ast, 'Match'):
+        return
+
+    def block(stmts):
+        out = []
+        for st in stmts:
+            for field in ('body', 'orelse', 'finalbody'):
+                v = getattr(st, field, None)
+                if isinstance(v, list) and v and isinstance(v[0], ast.stmt):
+                    setattr(st, field, block(v))
+            if isinstance(st, ast.Try):
+                for h in st.handlers:
+                    h.body = block(h.body)
+            if isinstance(st, ast.Match):
+                for c in st.cases:
+                    c.body = block(c.body)
+                subj = st.subject
+                if not _atomic(subj) or any(c.guard is not None for c in st.cases):
+                    out.append(st)
+                    continue
+                tests = [_match_test(subj, c.pattern) for c in st.cases]
+                if any(t is None for t in tests):
+                    out.append(st)
+                    continue
+                chain = None
+                for t, c in reversed(list(zip(tests, st.cases))):
+                    if t is True:
+                        chain = list(c.body)
+                    else:
+                        node = ast.copy_location(ast.If(test=t, body=list(c.body), orelse=chain or []), st)
+                        chain = [node]
+                for x in chain or []:
+                    ast.fix_missing_locations(x)
+                out.extend(chain or [])
+                log.append(f'N5 match statement at line {st.lineno} rewritten as an if / elif chain')
+            else:
+                out.append(st)
+        return out
+    for tree in trees.values():
+        for n in ast.walk(tree):
+            if isinstance(n, (ast.FunctionDef, ast.AsyncFunctionDef)):
+                n.body = block(n.body)
+
+
 # =================================================================================================== driver
 def run(trees, baseline=None):
     """trees: module name -> ast.Module (modified in place); returns the log of rewrites"""
     base = baseline if baseline is not None else load_baseline()
     log = []
+    undo_renames(trees, base, log)
+    match_to_if(trees, log)
     fold_constants(trees, base, log)
     inline_helpers(trees, base, log)
     propagate_locals(trees, base, log)
